@@ -597,7 +597,7 @@ def run_unit(unit, tier):
         for ind in (None, 0, 2, 4):
             for ea in (True, False):
                 v = maker(case.b)[j]
-                if not finite_and_string_keys(v):
+                if not finite_and_string_keys(v) or not is_tree(v):
                     res.hist['outside-domain'] += 1
                     continue
                 res.states += 1
@@ -605,6 +605,23 @@ def run_unit(unit, tier):
                 res.nontrivial += 1
                 check_json(djc, v, ind, ea, res, name.split(':')[0], {'family': name, 'index': j}, case if reloadable else None)
     return res
+
+
+def is_tree(v, seen=None):
+    """no container or user object is referenced twice (immutable leaves - dates, paths, string-likes, enum members,
+    built-in scalars - have no identity in JSON and may repeat)"""
+    seen = set() if seen is None else seen
+    kw = getattr(v, '_kw', None)
+    if isinstance(v, (list, tuple, dict)) or isinstance(kw, dict):
+        if id(v) in seen:
+            return False
+        seen.add(id(v))
+        if isinstance(v, dict):
+            return all(is_tree(k, seen) and is_tree(x, seen) for k, x in v.items())
+        if isinstance(v, (list, tuple)):
+            return all(is_tree(x, seen) for x in v)
+        return all(is_tree(x, seen) for x in kw.values())
+    return True
 
 
 def finite_and_string_keys(v):
